@@ -252,13 +252,13 @@ class System:
 def materialise(system, tracedir, history, stream_of, base_clock=1000, keep_outputs=False):
     """Write `history` (list of Ev) as real stream.obs files; stream_of maps the
     server stream index to a relpath.  Clocks are the ones the server uses."""
-    bodies = {}
+    parts = {}
     clock = base_clock
     for e in history:
         s, dt, mcv, p, j = e
         clock += dt
-        rel = stream_of[s]
-        bodies[rel] = bodies.get(rel, b"") + obs.enc(mcv, clock, p, j)
+        parts.setdefault(stream_of[s], []).append(obs.enc(mcv, clock, p, j))
+    bodies = {rel: b"".join(v) for rel, v in parts.items()}
     system.write(tracedir, bodies, keep_outputs=keep_outputs)
     return tracedir
 
